@@ -126,13 +126,10 @@ func (r *c13run) run(phase string, ops []*Op) {
 			case redact.RedactableString:
 				r.hold(at, string(v))
 			case redact.RedactableBytes:
-				// the slice itself is kept - for TakeRedactableBytes only, after
-				// which the buffer has handed its array over. (What the accessor
-				// RedactableBytes() returns shares the live array when nothing had
-				// to be appended, like bytes.Buffer.Bytes(); C13 speaks of strings.)
-				if op.K == "TakeB" {
-					r.heldB = append(r.heldB, heldBytes{at: at, b: v, copy: append([]byte(nil), v...)})
-				}
+				// the slice itself is kept: after Take the buffer has handed its
+				// array over, and what the accessor returns is a copy ("Take...
+				// saves a memory allocation compared to RedactableBytes()")
+				r.heldB = append(r.heldB, heldBytes{at: at, b: v, copy: append([]byte(nil), v...)})
 			case int:
 				if op.K == "Len" {
 					want := len(r.buf.VerifClone().RedactableString())
